@@ -43,7 +43,7 @@ def run(ctx):
     ctx.only_callers('C02.r1', 'Storage::add_fetched_header', {BP}, 1)
     ctx.only_callers('C02.r1', 'Storage::add_fetched_tx', {TP}, 1)
     ctx.only_callers('C02.r1', 'Peers::mark_matched_blocks_proved', {BP}, 1)
-    ctx.only_callers('C02.r1', 'Storage::filter_block', {RECV, 'Storage::update_filter_scripts'}, 2)
+    ctx.only_callers('C02.r1', 'Storage::filter_block', {RECV, 'Storage::update_filter_scripts', 'Storage::init_genesis_block'}, 2)  # init: genesis for scripts at block 0 after a set_scripts that died early (F49)
     ctx.only_callers('C02.r1', 'Peers::add_block', {RECV}, 1)
     ctx.only_callers('C02.r1', 'Peers::update_blocks_request', {BP, 'prove_or_download_matched_blocks'}, 1)
     writers = key_family_writers(P, ('BlockHash', 'BlockNumber', 'TxHash'))
